@@ -344,7 +344,7 @@ def run_scenario07(sc: dict, wall_limit: float = 40.0) -> dict:
 
 
 # ---- subprocess pool (same protocol as harness.sim.pool, with this module as the worker) -----------
-def _run_batch(items: list[tuple[int, dict]], wall: float, results: dict[int, dict]) -> None:
+def _run_batch(items: list[tuple[int, dict]], wall: float, results: dict[int, dict], tie: bool = True) -> None:
     pending = list(items)
     env = dict(os.environ)
     env["PYTHONPATH"] = f"{ROOT}:{env.get('KOPF_REPO', '/repo')}"
@@ -353,7 +353,7 @@ def _run_batch(items: list[tuple[int, dict]], wall: float, results: dict[int, di
         payload = "".join(json.dumps({"i": i, "sc": sc}) + "\n" for i, sc in pending)
         try:
             p = subprocess.run(["timeout", "-s", "KILL", str(int(wall * (len(pending) + 2) + 120)),
-                                sys.executable, "-m", "harness.props.sim_c07", str(wall)], input=payload,
+                                sys.executable, "-m", "harness.props.sim_c07", str(wall), "tie" if tie else "notie"], input=payload,
                                capture_output=True, text=True, cwd=str(ROOT), env=env)
         except Exception as e:  # noqa: BLE001
             for i, _ in pending:
@@ -378,19 +378,23 @@ def _run_batch(items: list[tuple[int, dict]], wall: float, results: dict[int, di
         pending = rest[1:]
 
 
-def run_many(scenarios: list[dict], wall: float = 40.0, jobs: int | None = None, batch: int = 16) -> list[dict]:
+def run_many(scenarios: list[dict], wall: float = 40.0, jobs: int | None = None, batch: int = 16, tie: bool = True) -> list[dict]:
+    """One result per scenario: {"digest": oracle findings + histograms + abstracted model runs} |
+    {"stall": True, ...} | {"harness_error": ...}."""
     jobs = jobs or int(os.environ.get("VERIF_JOBS", "0")) or min(16, os.cpu_count() or 4)
     items = list(enumerate(scenarios))
     batch = max(1, min(batch, (len(items) + jobs - 1) // jobs))
     batches = [items[k:k + batch] for k in range(0, len(items), batch)]
     results: dict[int, dict] = {}
     with ThreadPoolExecutor(max_workers=jobs) as ex:
-        list(ex.map(lambda b: _run_batch(b, wall, results), batches))
+        list(ex.map(lambda b: _run_batch(b, wall, results, tie), batches))
     return [results.get(i, {"i": i, "harness_error": "missing"}) for i in range(len(scenarios))]
 
 
 def main() -> None:
+    from . import c07
     wall = float(sys.argv[1]) if len(sys.argv) > 1 else 40.0
+    tie = not (len(sys.argv) > 2 and sys.argv[2] == "notie")
     for line in sys.stdin:
         line = line.strip()
         if not line:
@@ -399,7 +403,7 @@ def main() -> None:
         sys.stderr.write(f"@@BEGIN {item['i']}\n")
         sys.stderr.flush()
         try:
-            out = {"i": item["i"], "trace": run_scenario07(item["sc"], wall_limit=wall)}
+            out = {"i": item["i"], "digest": c07.digest(item["sc"], run_scenario07(item["sc"], wall_limit=wall), tie)}
         except Exception as e:  # noqa: BLE001
             import traceback
             out = {"i": item["i"], "harness_error": f"{type(e).__name__}: {e}", "tb": traceback.format_exc()[-3000:]}
